@@ -195,6 +195,13 @@ func TestC22(t *testing.T) {
 		g.Write([]byte(c.Group))
 		b, err := build(spec, uint64(g.Sum32())<<32|uint64(c.Index)<<8|uint64(sub))
 		if err != nil {
+			if err.Error() == "duplicate output id" {
+				// two conflicting transactions with the same inputs and an output of the same amount, program
+				// and position get the same output id (the mux id does not cover the destinations): such a
+				// generated DAG has no well-defined parent relation and is skipped, it says nothing about the pool
+				c.Count("generated_dags_skipped:conflicting-twins-share-an-output-id", 1)
+				return
+			}
 			c.Inconclusive("harness: cannot build DAG %s: %v", spec.sig(), err)
 			return
 		}
